@@ -271,7 +271,6 @@ def utf8Valid : Bytes → Bool
         ok1 && isCont b2 && isCont b3 && utf8Valid t3
       | _ => false
     else false
-termination_by l => l.length
 
 def decodeUtf8 (b : Bytes) : Py Bytes := if utf8Valid b then .ok b else .error .unicode
 
